@@ -5,16 +5,24 @@ define, or are rejected).  Cases carry the text hex-encoded as their last token.
   rej <mode> <reason> <hex>      well-formed file with one construct broken so that it MUST be rejected
   mut <mode> <hex>               character/line mutations and truncations of a well-formed file
   ovf <mode> <hex>               declared sizes whose tables overflow size_t
+  two <mode2> <mode1> <hex1> <hex2>  one CassandraParser object reads text1, then text2 (judged)
+  load <mode> <ok|bad> <hex>     MDP::parseCassandra / POMDP::parseCassandra: parser + Model constructor validation
 """
 from fractions import Fraction
 
-REPO_SRCS = ["src/Tools/CassandraParser.cpp"]
+REPO_SRCS = ["src/Tools/CassandraParser.cpp", "src/MDP/IO.cpp", "src/POMDP/IO.cpp", "src/MDP/Model.cpp",
+             "src/Seeder.cpp", "src/Utils/Probability.cpp",
+             "src/MDP/Policies/PolicyWrapper.cpp", "src/POMDP/Policies/Policy.cpp"]   # the last two: vtables UBSan refers to
+# IO.cpp also holds the stream operators of many other classes; only parseCassandra is used here
+EXTRA_CXXFLAGS = ["-ffunction-sections", "-fdata-sections"]
+EXTRA_LINK = ["-Wl,--gc-sections"]
 AXIOM_ALLOW = []
 ASAN_QUICK = True
 CASE_TIMEOUT = 10
 THOROUGH_SEEDS = 3
 TRUSTED_BASE = [
-    "character-level lexer (getline/trim/boost::tokenizer/starts_with/count) and std::stoul/std::stod are modelled in Gallina (C18/Model.v lex_text, stoul, stod) and validated by correspondence only",
+    "getline/boost::trim/boost::tokenizer/starts_with/std::count and std::stoul/std::stod are modelled in Gallina by their documented meaning (C18/Model.v lex_text, stoul, stod); parse_print is proved over these models down to the characters, the models themselves are tied to the C++ by correspondence",
+    "MDP::Model / POMDP::Model constructor validation (setDiscount, isProbability) is modelled with exact rational sums; the C++ sums doubles (difference far below the 1e-6 tolerance except at the knife edge, which the generator avoids)",
     "allocation of tables that fit in size_t is assumed to succeed (no std::bad_alloc)",
 ]
 ASSUMPTIONS = [
@@ -24,7 +32,8 @@ ASSUMPTIONS = [
 RULE = ("grammar-based generator over all line forms (entry/row-inline/row-next-line/matrix/reward, declarations "
         "by number or by names, statements in any order, overrides, wildcard/name/number mixes, spacing, CRLF, "
         "ignored lines); >= 35% of the cases are malformed (labelled must-reject constructs, random mutations, "
-        "truncations, overflowing sizes). Non-trivial = the model produced a table with a non-zero cell or "
+        "truncations, overflowing sizes); 7% re-use one parser object for two texts; 7% go through MDP/POMDP::parseCassandra "
+        "(complete models, and the same with one invalid row / missing row / invalid discount). Non-trivial = the model produced a table with a non-zero cell or "
         "rejected for a reason other than missing sizes; distinct by md5 of the case line. Every case also runs under ASan/UBSan.")
 
 NAMES = ["a", "b", "north", "s0", "left", "x1", "up", "tiger-left", "o_1", "Q", "zz", "listen", "g7", "w", "east"]
@@ -318,6 +327,110 @@ def gen_ovf(rng):
     return "ovf %s %s" % ("pomdp" if pomdp else "mdp", hx(s))
 
 
+def gen_two(rng):
+    """one parser object, two texts: the first leaves name maps behind (or aborts half-way), the
+       second declares by number, omits a declaration, or re-uses / permutes the same names"""
+    p1 = rng.random() < 0.6
+    f1 = File(rng, p1).build()
+    for d in (f1.S, f1.A, f1.O):
+        if d.names is None and rng.random() < 0.7: d.names = rng.sample(NAMES, d.n)
+    f1 = f1.build()
+    t1 = f1.text()
+    if rng.random() < 0.3:
+        t1 = t1[:rng.randrange(len(t1) + 1)]          # aborted first parse
+    p2 = rng.random() < 0.5
+    f2 = File(rng, p2)
+    k = rng.random()
+    if k < 0.35:
+        f2.S.names = f2.A.names = f2.O.names = None    # numeric re-declaration after names
+    elif k < 0.6:                                      # same names, other order / other sizes
+        for d, d1 in ((f2.S, f1.S), (f2.A, f1.A), (f2.O, f1.O)):
+            if d1.names:
+                pool = list(d1.names) + [x for x in NAMES if x not in d1.names]
+                d.names = rng.sample(pool[:max(d.n, len(d1.names))], d.n) if len(pool) >= d.n else None
+    f2.build()
+    items = list(f2.items)
+    if rng.random() < 0.25:                            # second file lacks a declaration
+        drop = rng.choice(["states ", "actions ", "obs "])
+        items = [it for it in items if not it[0].startswith(drop)]
+        # statements may now use names the stale maps still know
+    t2 = f2.text(items)
+    if rng.random() < 0.3 and f1.S.names:              # a statement using a name only the first file declared
+        t2 += "T: %s : %s : %s 0.5\n" % (rng.choice(["*", "0"]), rng.choice(f1.S.names), rng.choice(["*", "0"]))
+    return "two %s %s %s %s" % ("pomdp" if p2 else "mdp", "pomdp" if p1 else "mdp", hx(t1), hx(t2))
+
+
+DISTS = {1: [["1"], ["1.0"], ["1e0"]],
+         2: [["0.5", "0.5"], ["1", "0"], ["0.25", "0.75"], ["0", "1.0"], ["0.1", "0.9"], ["0.3", "0.7"], ["0.5", "0.500000001"]],
+         3: [["0.5", "0.25", "0.25"], ["1", "0", "0"], ["0.125", "0.125", "0.75"], ["0.1", "0.2", "0.7"], ["0.3", "0.3", "0.4"], ["0", "0.5", ".5"]]}
+BAD_ROWS = {1: [["0.5"], ["2"], ["-1"], ["nan"], ["inf"], ["0"], ["1.001"]],
+            2: [["0.5", "0.25"], ["1", "1"], ["-0.5", "1.5"], ["nan", "1"], ["0.5", "0.501"], ["0", "0"], ["inf", "0"], ["1.5", "-0.5"]],
+            3: [["0.5", "0.25", "0.125"], ["1", "0", "1"], ["-0.25", "0.5", "0.75"], ["0.5", "nan", "0.5"], ["0.3", "0.3", "0.3"], ["0", "0", "0"]]}
+
+
+def spell(dim, k, rng):
+    if dim.names is not None and (rng.random() < 0.7 or str(k) in dim.names):
+        return dim.names[k]
+    for sp in rng.sample(["%d", "+%d", "0%d"], 3):
+        t = sp % k
+        if dim.names is None or t not in dim.names: return t
+    return dim.names[k]
+
+
+def gen_load(rng):
+    """a complete model file (every row of T and, for a POMDP, of O a distribution) for the public
+       entry points MDP::parseCassandra / POMDP::parseCassandra, or the same with one invalid row /
+       a missing row / an invalid discount"""
+    pomdp = rng.random() < 0.5
+    f = File(rng, pomdp)
+    f.S = Dim(rng, 1, 3); f.A = Dim(rng, 1, 2); f.O = Dim(rng, 1, 3)
+    S, A, O = f.S, f.A, f.O
+    rows = {}
+    for a in range(A.n):
+        for s in range(S.n):
+            rows[("T", a, s)] = list(rng.choice(DISTS[S.n]))
+            if pomdp: rows[("O", a, s)] = list(rng.choice(DISTS[O.n]))
+    disc = rng.choice(["0.5", "0.95", "1", "0.75", "1.0", "0.9"])
+    label = "ok"
+    if rng.random() < 0.5:
+        label = "bad"
+        k = rng.choice(["row", "row", "row", "missing", "discount"])
+        key = rng.choice(sorted(rows))
+        if k == "row":
+            n = S.n if key[0] == "T" else O.n
+            rows[key] = list(rng.choice(BAD_ROWS[n]))
+        elif k == "missing":
+            del rows[key]
+        else:
+            disc = rng.choice(["0", "1.5", "-0.5", "nan", "inf", "1.000001", "-1"])
+    lines = []
+    lines.append("states" + colon(rng) + S.decl_text(rng))
+    lines.append("actions" + colon(rng) + A.decl_text(rng))
+    if pomdp or rng.random() < 0.3: lines.append("observations" + colon(rng) + O.decl_text(rng))
+    if disc != "1" or rng.random() < 0.5: lines.append("discount" + colon(rng) + disc)
+    body = []
+    keys = sorted(rows); rng.shuffle(keys)
+    done = set()
+    for key in keys:
+        if key in done: continue
+        t, a, s = key
+        allrows = [(t, a, x) for x in range(S.n)]
+        if rng.random() < 0.3 and all(k2 in rows and k2 not in done for k2 in allrows):
+            body.append([head(rng, t) + colon(rng) + spell(A, a, rng)] + [gap(rng).join(rows[k2]) for k2 in allrows])
+            done.update(allrows)
+        elif rng.random() < 0.5:
+            body.append([head(rng, t) + colon(rng) + spell(A, a, rng) + colon(rng) + spell(S, s, rng) + gap(rng) + gap(rng).join(rows[key])]); done.add(key)
+        else:
+            body.append([head(rng, t) + colon(rng) + spell(A, a, rng) + colon(rng) + spell(S, s, rng), gap(rng).join(rows[key])]); done.add(key)
+    for _ in range(rng.randint(0, 3)):
+        body.append([head(rng, "R") + colon(rng) + rng.choice(["*", spell(A, rng.randrange(A.n), rng)]) + colon(rng)
+                     + rng.choice(["*", spell(S, rng.randrange(S.n), rng)]) + colon(rng) + rng.choice(["*", spell(S, rng.randrange(S.n), rng)])
+                     + colon(rng) + "*" + gap(rng) + rng.choice(["1", "-1", "2.5", "10", "0.5", "-0.25"])])
+    rng.shuffle(body)
+    text = "\n".join(lines + [l for b in body for l in b]) + "\n"
+    return "load %s %s %s" % ("pomdp" if pomdp else "mdp", label, hx(text))
+
+
 def gen(rng, tier):
     n = {"quick": 1500, "thorough": 8000, "search": 2000}[tier]
     out = []
@@ -325,6 +438,8 @@ def gen(rng, tier):
         r = rng.random()
         if r < 0.58: out.append(gen_wf(rng))
         elif r < 0.78: out.append(gen_rej(rng))
-        elif r < 0.98: out.append(gen_mut(rng))
+        elif r < 0.84: out.append(gen_mut(rng))
+        elif r < 0.91: out.append(gen_load(rng))
+        elif r < 0.98: out.append(gen_two(rng))
         else: out.append(gen_ovf(rng))
     return out
